@@ -1,5 +1,427 @@
-use crate::common::Ctx;
-pub fn run(_ctx: &Ctx, _replay: Option<&serde_json::Value>) -> i32 {
-    eprintln!("not implemented");
-    2
+//! C17 — unit conversion is consistent across the whole unit table.
+//!
+//! The unit table itself is the (finite) state space: every unit, identifier, ordered pair and
+//! same-category triple is enumerated. Oracles are computed by the harness from the identifier
+//! lists only (resolution), from an independent SI / binary prefix table (power ratios) and from
+//! algebraic laws (identity, round trip, transitivity, category separation).
+
+use crate::common::*;
+use blots_core::units::{self, ConversionType, Unit, UnitCategory};
+use serde_json::{Value as J, json};
+use std::sync::atomic::{AtomicU64, Ordering};
+
+const EPS: f64 = f64::EPSILON; // 2^-52
+
+fn magnitudes(tier: Tier) -> Vec<f64> {
+    let mut v = vec![0.0, 1.0, -1.0, 1e-12, 1e12, -1e-12, -1e12, 2.5, 37.0, 1e3, 1e-3, 451.67];
+    if tier == Tier::Thorough {
+        v.extend([1e-9, 1e9, 1e-6, 1e6, -1e6, 0.1, 3.0, 7.0, 1e-1, 123456.789, 98.6, -40.0]);
+    }
+    v
+}
+
+fn same_unit(a: &Unit, b: &Unit) -> bool {
+    a.category == b.category && a.identifiers == b.identifiers
+}
+
+fn is_temp(u: &Unit) -> bool {
+    matches!(u.conversion, ConversionType::Temperature { .. })
+}
+
+fn is_recip(u: &Unit) -> bool {
+    matches!(u.conversion, ConversionType::Reciprocal { .. })
+}
+
+fn rel_close(a: f64, b: f64, ulps: f64) -> bool {
+    if a == b {
+        return true;
+    }
+    if !a.is_finite() || !b.is_finite() {
+        return a == b || (a.is_nan() && b.is_nan());
+    }
+    let scale = a.abs().max(b.abs());
+    (a - b).abs() <= ulps * EPS * scale
+}
+
+/// Independent prefix table: (long-name prefix, factor as (base, exponent)).
+const PREFIXES: &[(&str, f64, i32)] = &[
+    ("yocto", 10.0, -24),
+    ("zepto", 10.0, -21),
+    ("atto", 10.0, -18),
+    ("femto", 10.0, -15),
+    ("pico", 10.0, -12),
+    ("nano", 10.0, -9),
+    ("micro", 10.0, -6),
+    ("milli", 10.0, -3),
+    ("centi", 10.0, -2),
+    ("deci", 10.0, -1),
+    ("deca", 10.0, 1),
+    ("deka", 10.0, 1),
+    ("hecto", 10.0, 2),
+    ("kilo", 10.0, 3),
+    ("mega", 10.0, 6),
+    ("giga", 10.0, 9),
+    ("tera", 10.0, 12),
+    ("peta", 10.0, 15),
+    ("exa", 10.0, 18),
+    ("zetta", 10.0, 21),
+    ("yotta", 10.0, 24),
+    ("kibi", 2.0, 10),
+    ("mebi", 2.0, 20),
+    ("gibi", 2.0, 30),
+    ("tebi", 2.0, 40),
+    ("pebi", 2.0, 50),
+    ("exbi", 2.0, 60),
+    ("zebi", 2.0, 70),
+    ("yobi", 2.0, 80),
+];
+
+/// Exact comparison of `ratio` with base^exp: for base 10 via the correctly rounded decimal
+/// literal, for base 2 exactly.
+fn prefix_value(base: f64, exp: i32) -> f64 {
+    if base == 2.0 {
+        2f64.powi(exp)
+    } else {
+        format!("1e{}", exp).parse::<f64>().unwrap()
+    }
+}
+
+pub fn run(ctx: &Ctx, replay: Option<&J>) -> i32 {
+    let all = units::get_all_units();
+    if let Some(r) = replay {
+        // replay: re-evaluate one recorded conversion / resolution and print what is observed
+        let c = &r["case"];
+        match c["op"].as_str().unwrap_or("") {
+            "resolve" => {
+                let id = c["id"].as_str().unwrap_or("");
+                println!("resolve_unit({:?}) = {:?}", id, units::resolve_unit(id).map(|u| u.identifiers[0]));
+            }
+            _ => {
+                let x = c["x"].as_f64().unwrap_or(0.0);
+                let a = c["from"].as_str().unwrap_or("");
+                let b = c["to"].as_str().unwrap_or("");
+                println!("convert({}, {:?}, {:?}) = {:?}", x, a, b, units::convert(x, a, b).map_err(|e| e.to_string()));
+            }
+        }
+        println!("(replayed; expected: {}; originally observed: {})", r["expected"], r["observed"]);
+        return 1;
+    }
+    let mags = magnitudes(ctx.tier);
+    let n_ids: usize = all.iter().map(|u| u.identifiers.len()).sum();
+    ctx.set("units", json!(all.len()));
+    ctx.set("identifiers", json!(n_ids));
+
+    // ---- 1. identifier resolution, computed independently from the identifier lists
+    let mut probes: Vec<String> = vec![];
+    for u in &all {
+        for id in u.identifiers {
+            probes.push(id.to_string());
+            probes.push(id.to_uppercase());
+            probes.push(id.to_lowercase());
+            let mut c = id.chars();
+            if let Some(f) = c.next() {
+                probes.push(f.to_uppercase().collect::<String>() + c.as_str());
+            }
+            probes.push(format!("{}x", id));
+            probes.push(format!(" {}", id));
+        }
+    }
+    probes.extend(["", " ", "unknownunit", "meter s", "m/s/s", "K", "k", "C", "F", "MM", "T", "M", "PA", "pA"].iter().map(|s| s.to_string()));
+    probes.sort();
+    probes.dedup();
+    for p in &probes {
+        ctx.count(1);
+        let pl = p.to_lowercase();
+        let exact: Vec<&Unit> = all.iter().filter(|u| u.identifiers.iter().any(|i| i == p)).collect();
+        let ci: Vec<&Unit> = all.iter().filter(|u| u.identifiers.iter().any(|i| i.to_lowercase() == pl)).collect();
+        let expected: Result<&Unit, &str> = if exact.len() == 1 {
+            Ok(exact[0])
+        } else if exact.len() > 1 {
+            Err("ambiguous")
+        } else if ci.len() == 1 {
+            Ok(ci[0])
+        } else if ci.is_empty() {
+            Err("unknown")
+        } else {
+            Err("ambiguous")
+        };
+        let got = catch(|| units::resolve_unit(p));
+        let ok = match (&expected, &got) {
+            (Ok(e), Ok(Ok(g))) => same_unit(e, g),
+            (Err(_), Ok(Err(_))) => true,
+            _ => false,
+        };
+        ctx.outcome(match &expected {
+            Ok(_) => "resolve-ok",
+            Err("unknown") => "resolve-unknown",
+            Err(_) => "resolve-ambiguous",
+        });
+        ctx.nontrivial(&format!("resolve:{}", p));
+        if !ok {
+            ctx.violation(Violation {
+                kind: "resolution".into(),
+                class: "resolve".into(),
+                input: p.clone(),
+                expected: format!("{:?}", expected.map(|u| u.identifiers[0])),
+                observed: format!("{:?}", got.map(|r| r.map(|u| u.identifiers[0]).map_err(|e| e.to_string()))),
+                case: json!({"op": "resolve", "id": p}),
+            });
+        }
+    }
+    // every listed identifier must resolve to its own unit (an alias listed twice breaks this)
+    for u in &all {
+        for id in u.identifiers {
+            ctx.count(1);
+            match catch(|| units::resolve_unit(id)) {
+                Ok(Ok(g)) if same_unit(&g, u) => {}
+                other => ctx.violation(Violation {
+                    kind: "listed-identifier".into(),
+                    class: "resolve".into(),
+                    input: id.to_string(),
+                    expected: format!("resolves to {} ({})", u.identifiers[0], u.category.name()),
+                    observed: format!("{:?}", other.map(|r| r.map(|u| u.identifiers[0]).map_err(|e| e.to_string()))),
+                    case: json!({"op": "resolve", "id": id}),
+                }),
+            }
+        }
+    }
+
+    // ---- 2. all identifiers of a unit behave identically (bit-identical results)
+    let cats: Vec<UnitCategory> = {
+        let mut v: Vec<UnitCategory> = vec![];
+        for u in &all {
+            if !v.contains(&u.category) {
+                v.push(u.category);
+            }
+        }
+        v
+    };
+    let unit_idx: Vec<usize> = (0..all.len()).collect();
+    let evals = AtomicU64::new(0);
+    par_for(unit_idx.len(), |ui| {
+        let u = &all[ui];
+        let canon_id = u.identifiers[0];
+        for other in all.iter().filter(|o| o.category == u.category) {
+            for &x in &mags {
+                let base_to = units::convert(x, canon_id, other.identifiers[0]).ok();
+                let base_from = units::convert(x, other.identifiers[0], canon_id).ok();
+                for id in u.identifiers.iter().skip(1) {
+                    evals.fetch_add(2, Ordering::Relaxed);
+                    let a = units::convert(x, id, other.identifiers[0]).ok();
+                    let b = units::convert(x, other.identifiers[0], id).ok();
+                    let same = |p: Option<f64>, q: Option<f64>| match (p, q) {
+                        (Some(p), Some(q)) => p.to_bits() == q.to_bits() || (p.is_nan() && q.is_nan()),
+                        (None, None) => true,
+                        _ => false,
+                    };
+                    if !same(a, base_to) || !same(b, base_from) {
+                        ctx.violation(Violation {
+                            kind: "alias-differs".into(),
+                            class: "alias".into(),
+                            input: format!("{} vs {} against {} at {}", id, canon_id, other.identifiers[0], x),
+                            expected: format!("{:?} / {:?}", base_to, base_from),
+                            observed: format!("{:?} / {:?}", a, b),
+                            case: json!({"op": "convert", "x": x, "from": id, "to": other.identifiers[0]}),
+                        });
+                    }
+                }
+            }
+        }
+        ctx.nontrivial(&format!("alias:{}", canon_id));
+    });
+
+    // ---- 3. identity, round trip, transitivity (every same-category triple), category separation
+    par_for(all.len(), |ai| {
+        let a = &all[ai];
+        let an = a.identifiers[0];
+        for b in &all {
+            let bn = b.identifiers[0];
+            if a.category != b.category {
+                evals.fetch_add(1, Ordering::Relaxed);
+                let r = catch(|| units::convert(1.0, an, bn));
+                ctx.outcome("cross-category");
+                if !matches!(r, Ok(Err(_))) {
+                    ctx.violation(Violation {
+                        kind: "cross-category".into(),
+                        class: "category".into(),
+                        input: format!("{} -> {}", an, bn),
+                        expected: "error".into(),
+                        observed: format!("{:?}", r.map(|x| x.map_err(|e| e.to_string()))),
+                        case: json!({"op": "convert", "x": 1.0, "from": an, "to": bn}),
+                    });
+                }
+                continue;
+            }
+            for &x in &mags {
+                evals.fetch_add(2, Ordering::Relaxed);
+                let ab = match catch(|| units::convert(x, an, bn)) {
+                    Ok(Ok(v)) => v,
+                    other => {
+                        ctx.violation(Violation {
+                            kind: "same-category-fails".into(),
+                            class: "convert".into(),
+                            input: format!("{} {} -> {}", x, an, bn),
+                            expected: "a number".into(),
+                            observed: format!("{:?}", other.map(|x| x.map_err(|e| e.to_string()))),
+                            case: json!({"op": "convert", "x": x, "from": an, "to": bn}),
+                        });
+                        continue;
+                    }
+                };
+                if ai == all.iter().position(|u| same_unit(u, b)).unwrap() {
+                    // identity
+                    ctx.outcome("identity");
+                    let ok = if is_temp(a) { (ab - x).abs() <= 1e-9 * x.abs().max(300.0) } else { rel_close(ab, x, 2.0) || (is_recip(a) && x == 0.0) };
+                    if !ok {
+                        ctx.violation(Violation {
+                            kind: "identity".into(),
+                            class: "law".into(),
+                            input: format!("{} {} -> {}", x, an, bn),
+                            expected: format!("{}", x),
+                            observed: format!("{}", ab),
+                            case: json!({"op": "convert", "x": x, "from": an, "to": bn}),
+                        });
+                    }
+                    continue;
+                }
+                if !ab.is_finite() {
+                    ctx.outcome("non-finite-intermediate");
+                    continue;
+                }
+                // round trip
+                let back = units::convert(ab, bn, an).unwrap_or(f64::NAN);
+                ctx.outcome("round-trip");
+                let ok = if is_temp(a) {
+                    (back - x).abs() <= 1e-9 * x.abs().max(300.0)
+                } else if is_recip(a) != is_recip(b) && x == 0.0 {
+                    true
+                } else {
+                    rel_close(back, x, 8.0)
+                };
+                if !ok {
+                    ctx.violation(Violation {
+                        kind: "round-trip".into(),
+                        class: "law".into(),
+                        input: format!("{} {} -> {} -> {}", x, an, bn, an),
+                        expected: format!("{}", x),
+                        observed: format!("{} (via {})", back, ab),
+                        case: json!({"op": "convert", "x": x, "from": an, "to": bn}),
+                    });
+                }
+                // transitivity through every c
+                for c in all.iter().filter(|c| c.category == a.category) {
+                    let cn = c.identifiers[0];
+                    evals.fetch_add(2, Ordering::Relaxed);
+                    let bc = units::convert(ab, bn, cn).unwrap_or(f64::NAN);
+                    let ac = units::convert(x, an, cn).unwrap_or(f64::NAN);
+                    ctx.outcome("transitivity");
+                    let ok = if !bc.is_finite() || !ac.is_finite() {
+                        bc == ac || (bc.is_nan() && ac.is_nan()) || is_recip(a) != is_recip(c) || is_recip(a) != is_recip(b)
+                    } else if is_temp(a) {
+                        (bc - ac).abs() <= 1e-9 * ac.abs().max(300.0)
+                    } else {
+                        rel_close(bc, ac, 12.0)
+                    };
+                    if !ok {
+                        ctx.violation(Violation {
+                            kind: "transitivity".into(),
+                            class: "law".into(),
+                            input: format!("{} {} -> {} -> {} vs direct", x, an, bn, cn),
+                            expected: format!("{}", ac),
+                            observed: format!("{}", bc),
+                            case: json!({"op": "convert", "x": x, "from": an, "to": cn}),
+                        });
+                    }
+                }
+            }
+        }
+        ctx.nontrivial(&format!("laws:{}", an));
+    });
+    ctx.count(evals.load(Ordering::Relaxed) as usize);
+
+    // ---- 4. metric / binary prefixes: prefixed long name vs base long name in the same category
+    let mut prefix_pairs = 0usize;
+    for u in &all {
+        for v in all.iter().filter(|v| v.category == u.category && !same_unit(u, v)) {
+            for uid in u.identifiers {
+                for vid in v.identifiers {
+                    if vid.len() < 4 {
+                        continue; // symbols: "m" + "in" would be a false match
+                    }
+                    for (p, base, exp) in PREFIXES {
+                        if uid.len() == p.len() + vid.len() && uid.starts_with(p) && uid.ends_with(vid) {
+                            prefix_pairs += 1;
+                            ctx.count(1);
+                            let want = prefix_value(*base, *exp);
+                            let got = units::convert(1.0, uid, vid).unwrap_or(f64::NAN);
+                            ctx.nontrivial(&format!("prefix:{}:{}", uid, vid));
+                            if !rel_close(got, want, 4.0) {
+                                ctx.violation(Violation {
+                                    kind: "prefix-ratio".into(),
+                                    class: "prefix".into(),
+                                    input: format!("1 {} in {}", uid, vid),
+                                    expected: format!("{}^{} = {}", base, exp, want),
+                                    observed: format!("{}", got),
+                                    case: json!({"op": "convert", "x": 1.0, "from": uid, "to": vid}),
+                                });
+                            }
+                        }
+                    }
+                }
+            }
+        }
+    }
+    ctx.set("prefix_pairs", json!(prefix_pairs));
+
+    // ---- 5. the `convert` built-in agrees with units::convert on every ordered same-category pair
+    let pairs: Vec<(usize, usize)> = (0..all.len())
+        .flat_map(|i| (0..all.len()).map(move |j| (i, j)))
+        .filter(|(i, j)| all[*i].category == all[*j].category)
+        .collect();
+    par_for(pairs.len(), |k| {
+        let (i, j) = pairs[k];
+        let (a, b) = (all[i].identifiers[0], all[j].identifiers[0]);
+        let q = |s: &str| if s.contains('"') { format!("'{}'", s) } else { format!("\"{}\"", s) };
+        let src = format!("convert(2.5, {}, {})", q(a), q(b));
+        let got = eval_fresh(&src);
+        let want = units::convert(2.5, a, b).map(|v| num_repr(v));
+        ctx.count(1);
+        let ok = match (&got, &want) {
+            (Outcome::Ok(g), Ok(w)) => g == w,
+            (Outcome::EvalError(_), Err(_)) => true,
+            _ => false,
+        };
+        if !ok {
+            ctx.violation(Violation {
+                kind: "builtin-differs".into(),
+                class: "builtin".into(),
+                input: src,
+                expected: format!("{:?}", want.map_err(|e| e.to_string())),
+                observed: format!("{:?}", got),
+                case: json!({"op": "convert", "x": 2.5, "from": a, "to": b}),
+            });
+        }
+    });
+
+    ctx.sample(json!({"resolve": "KM", "expected": "kilometers (unique case-insensitive match)"}));
+    ctx.sample(json!({"triple": ["miles", "kilometers", "feet"], "magnitude": 1e12}));
+    ctx.sample(json!({"prefix": "1 kilometers in meters == 10^3"}));
+    ctx.set("categories", json!(cats.len()));
+    ctx.set("magnitudes", json!(mags));
+    ctx.require_outcome("resolve-ok", 500);
+    ctx.require_outcome("resolve-unknown", 100);
+    ctx.require_outcome("resolve-ambiguous", 1);
+    ctx.require_outcome("transitivity", 10_000);
+    ctx.require_outcome("cross-category", 10_000);
+    if prefix_pairs < 20 {
+        ctx.machinery_error(format!("vacuity guard: only {} prefixed name pairs found", prefix_pairs));
+    }
+    ctx.assume("tolerances: identity 2 ulp, round trip 8 ulp, A->B->C vs A->C 12 ulp relative; temperature 1e-9 relative to max(|x|, 300)");
+    finish(
+        ctx,
+        "exploration",
+        "the whole unit table: every identifier (plus upper/lower/capitalised/suffixed/padded variants) for resolution; every unit x every alias x every same-category partner x magnitudes for alias equivalence; every ordered pair and same-category triple x magnitudes for the laws; every (prefixed long name, base long name) pair against an independent prefix table; distinct = one key per identifier probe / unit / prefix pair",
+        true,
+        None,
+    )
 }
